@@ -161,6 +161,19 @@ impl<N: Copy> OrderMap<N> {
         self.pos_to_node.remove(&pos);
     }
 
+    /// Record that the node formerly known as `old` is now called `new`
+    /// (it keeps its position in the order).
+    pub(super) fn rename_node(&mut self, old: N, new: N, graph: impl NodeIndexable<NodeId = N>) {
+        let old_idx = graph.to_index(old);
+        let new_idx = graph.to_index(new);
+        assert!(old_idx < self.node_to_pos.len() && new_idx < self.node_to_pos.len());
+
+        let pos = self.node_to_pos[old_idx];
+        self.node_to_pos[old_idx] = TopologicalPosition::default();
+        self.node_to_pos[new_idx] = pos;
+        self.pos_to_node.insert(pos, new);
+    }
+
     /// Set the position of a node.
     ///
     /// Panics if the node index is out of bounds.
